@@ -250,6 +250,27 @@ func registerReflectModel(e *Engine) {
 			}
 			return BoolT(x.Kind == y.Kind && x.GoType == nil && y.GoType == nil && kindGoType(x.Kind) != nil), true
 		}
+		if x, ok := a.(*RVal); ok {
+			// reflect.Value is a comparable struct (typ, ptr, flag): model by kind and payload identity
+			y, ok2 := b.(*RVal)
+			if !ok2 || x.Kind != y.Kind {
+				return FalseT, true
+			}
+			if x.Ref != nil || y.Ref != nil {
+				if x.Ref == nil || y.Ref == nil {
+					return FalseT, true
+				}
+				return st.eqValues(x.Ref, y.Ref), true
+			}
+			if fx, ok := x.Val.(*FuncV); ok {
+				fy, ok2 := y.Val.(*FuncV)
+				return BoolT(ok2 && fx.Fn == fy.Fn && fx.ID == fy.ID && fx.Native == fy.Native), true
+			}
+			if x.Val == nil || y.Val == nil {
+				return BoolT(x.Val == nil && y.Val == nil), true
+			}
+			return st.eqValues(x.Val, y.Val), true
+		}
 		if prevEq != nil {
 			return prevEq(st, a, b)
 		}
